@@ -143,6 +143,30 @@ def std_transfer(I, fr, t, c, pth):
                 return True
         return False
 
+    # ------------------------------------------------------------------ slice::partition_point
+    if name == 'partition_point' and 'slice' in res and len(args) == 2:
+        v = fr.deref_operand(args[0])
+        for _ in range(4):
+            if isinstance(v, Ref):
+                v = fr._project(fr.store.get(v.root, TOP), v.proj)
+        cl = I._closure_value(fr, args[1])
+        if isinstance(v, Agg) and cl is not None:
+            outs = []
+            for item in v.items:
+                try:
+                    outs.append(I._call_closure_rw(fr, cl[0], cl[1], [('byref', item)], where))
+                except NotDerivable:
+                    outs.append(TOP)
+            if all(isinstance(o, Int) for o in outs):
+                k = 0
+                while k < len(outs) and outs[k].v:
+                    k += 1
+                fr.storev(dest, Int(k))
+                return True
+            # undecided predicate: the result is some index 0..=len (the slice is assumed partitioned, as the API requires)
+            return I.fork_values(fr, t, pth, [Int(k) for k in range(len(v.items) + 1)], ('partition_point', where))
+        return False
+
     # ------------------------------------------------------------------ inclusive ranges
     if (d.startswith('std::ops::RangeInclusive::<Idx>::new') or res.startswith('std::ops::RangeInclusive::<Idx>::new')) and len(args) == 2:
         a, b = as_int(fr.operand(args[0])), as_int(fr.operand(args[1]))
